@@ -255,3 +255,36 @@ def _asyncio_gather(ex, st, args, kwargs, fn):
 
 
 LIBRARY["asyncio.gather"] = _asyncio_gather
+
+
+# ---------------------------------------------------------------------------------------------- set / sort (A-STDLIB)
+@lib("set")
+def _set(ex, st, args, kwargs, fn):
+    """A-STDLIB: set(xs) holds each distinct element of xs once (iteration order unspecified): the opaque list
+    dedup(xs)"""
+    used(ex, "A-STDLIB set(xs) / list.sort(key=...)")
+    if not args:
+        return [(st, ex.alloc(st, ListObj(L.LT([]))))]
+    src = args[0]
+    if isinstance(src, L.LT):
+        src = ex.alloc(st, ListObj(src))
+    return [(st, ex.alloc(st, ListObj(L.LT([L.Abs("dedup", (src,))]))))]
+
+
+@lib("list.sort")
+def _list_sort(ex, st, args, kwargs, fn):
+    """A-STDLIB: xs.sort(key=int) sorts in place ascending by int(x), stable; xs.sort() lexicographically"""
+    used(ex, "A-STDLIB set(xs) / list.sort(key=...)")
+    o = st.heap[fn.bound.oid]
+    key = kwargs.get("key")
+    if key is None:
+        sym = "sort_plain"
+    elif isinstance(key, BuiltinV) and key.name == "int":
+        sym = "sort_int"
+    else:
+        raise Unsupported("list.sort with this key function")
+    if kwargs.get("reverse") is not None:
+        raise Unsupported("list.sort(reverse=...)")
+    snapshot = ex.alloc(st, ListObj(o.lt))
+    o.lt = L.LT([L.Abs(sym, (snapshot,))])
+    return [(st, sv_none())]
